@@ -53,8 +53,9 @@ THEOREMS = [
     "Measured.C02.div_eq_mul_inv", "Measured.C02.mul_comm", "Measured.C02.eval_canonical",
     "Measured.Obligations.symbols_lex", "Measured.Obligations.init_base_factors", "Measured.Obligations.init_terms_ok",
     "Measured.Obligations.shipped_units_render_to_themselves", "Measured.Obligations.family_round_trip",
+    "Measured.queries_good", "Measured.C13.base_factors_after_every_query_history",
 ]
-LEAN_TARGETS = ["Props.C13", "Obligations.C13"]
+LEAN_TARGETS = ["Props.C13", "Obligations.C13", "Props.Planner", "Obligations.History"]
 THOROUGH_TARGETS = ["ObligationsFull.C13Full"]
 QUICK = {"chunks": 8, "ops": 1500}
 THOROUGH = {"chunks": 16, "ops": 12000}
